@@ -1183,3 +1183,51 @@ theorem deadOnly_of_goneOnly_s : ∀ (b : Block), simpleSB b = true → goneOnly
   exact key _ b (Nat.le_refl _)
 
 end M.Rt
+
+namespace M.Rt
+
+/-- a live-parked block that still waits at some request or stream has its waker registered at a channel -/
+theorem live_point_of_parked (wk : Waker) (w : World) :
+    ∀ (b : Block), LPB wk w b → goneOnlyB b = false → ∃ l, l < w.leaves.length ∧ (w.leaf l).waker = some wk := by
+  have key : ∀ n (b : Block), sizeOf b ≤ n → LPB wk w b → goneOnlyB b = false →
+      ∃ l, l < w.leaves.length ∧ (w.leaf l).waker = some wk := by
+    intro n
+    induction n with
+    | zero => intro b hb; cases b; simp at hb
+    | succ n ih =>
+      intro b hb hp hg
+      obtain ⟨env, cur, rest⟩ := b
+      simp only [Block.mk.sizeOf_spec] at hb
+      simp only [LPB] at hp
+      simp only [goneOnlyB] at hg
+      cases cur with
+      | idle => simp [LPP] at hp
+      | reqDead => simp [goneOnlyP] at hg
+      | await s => simp [goneOnlyP] at hg
+      | selfwake s => simp [LPP] at hp
+      | host c m => simp [goneOnlyP] at hg
+      | req x l => simp only [LPP] at hp; exact ⟨l, hp.1, hp.2⟩
+      | streamWait x l c lim body => simp only [LPP] at hp; exact ⟨l, hp.1, hp.2⟩
+      | streamBody x l c lim body inner =>
+        simp only [LPP] at hp
+        simp only [goneOnlyP] at hg
+        simp only [Pend.streamBody.sizeOf_spec] at hb
+        exact ih inner (by omega) hp hg
+      | join a b ad bd =>
+        simp only [LPP] at hp
+        simp only [goneOnlyP, Bool.and_eq_false_iff, Bool.or_eq_false_iff] at hg
+        simp only [Pend.join.sizeOf_spec] at hb
+        rcases hg with ⟨h1, h2⟩ | ⟨h1, h2⟩
+        · exact ih a (by omega) (hp.1 h1) h2
+        · exact ih b (by omega) (hp.2 h1) h2
+      | select a b =>
+        simp only [LPP] at hp
+        simp only [goneOnlyP, Bool.and_eq_false_iff] at hg
+        simp only [Pend.select.sizeOf_spec] at hb
+        rcases hg with h1 | h1
+        · exact ih a (by omega) hp.1 h1
+        · exact ih b (by omega) hp.2 h1
+  intro b
+  exact key _ b (Nat.le_refl _)
+
+end M.Rt
